@@ -3,7 +3,7 @@
    Models: Model/Codec.v (every consensus decoder, for every size table), Model/TreeHash.v, Model/Extra.v, Model/Address.v,
    Model/Base58.v, Model/Amount.v, Model/Keys.v, Model/Network.v.   Proofs: Proofs/NoPanic.v, Proofs/Robust.v.
    `total d` (Proofs/NoPanic.v) unfolds to: forall s r, d s <> (Panic, r) /\ d s <> (Err EFuel, r). *)
-From MRS Require Import Proofs.NoPanic Proofs.Robust Proofs.RobustText.
+From MRS Require Import Proofs.NoPanic Proofs.Robust Proofs.RobustText Proofs.AllocTotal.
 From MRS Require Import Model.TreeHash Spec.TreeHash Spec.Leb128 Model.Keccak Model.Address Model.Base58 Model.Network Model.Keys Model.Amount Model.Extra Model.EdClass.
 Open Scope N_scope.
 
@@ -226,6 +226,29 @@ Example C04_ex_ring : fst (dec_tx default_sizes ([x02; x00; x01; x02; x00; x00] 
 Proof. split; [vm_compute; reflexivity|eexists; vm_compute; reflexivity]. Qed.
 
 (* ---- pinned statements ---- *)
+(* TOTAL of the kept pre-allocations.  kept_tx / kept_block (Proofs/AllocTotal.v) sum size_of T * len over EVERY
+   Vec::with_capacity site the decoder passed for the parsed value (inputs, key offsets, outputs, extra, pseudo-outs, out_pk,
+   range proofs with their L/R vectors, MLSAG rows, block hashes).  For every size table within the ratio 32 of the minimal wire
+   sizes (the real one is: TxIn 64 bytes per >= 2 wire bytes is the worst case) a successful parse keeps at most
+   32 bytes of pre-allocation per byte consumed.  (In-flight allocations of a FAILING parse are bounded one by one by
+   C04_alloc_each; their number is the nesting depth of the decoders - argued in notes/C04.md and observed, not proved.) *)
+Theorem C04_alloc_kept_total : forall sz,
+  sz_txin sz <= 64 /\ sz_txout sz <= 32 * 34 /\ sz_bulletproof sz <= 32 * 290 /\ sz_bpplus sz <= 32 * 194 /\ sz_rangesig sz <= 32 * 6176 ->
+  (forall s t r, dec_tx sz s = (Ok t, r) -> kept_tx sz t <= 32 * (lenN s - lenN r)) /\
+  (forall s b r, dec_block sz s = (Ok b, r) -> kept_block sz b <= 32 * (lenN s - lenN r)).
+Proof. intros sz H. split; [exact (kept_tx_total sz H)|exact (kept_block_total sz H)]. Qed.
+
+Example C04_alloc_default_sizes_within_ratio :
+  sz_txin default_sizes <= 64 /\ sz_txout default_sizes <= 32 * 34 /\ sz_bulletproof default_sizes <= 32 * 290 /\
+  sz_bpplus default_sizes <= 32 * 194 /\ sz_rangesig default_sizes <= 32 * 6176.
+Proof. vm_compute. repeat split; discriminate. Qed.
+
+Check C04_alloc_kept_total : forall sz,
+  sz_txin sz <= 64 /\ sz_txout sz <= 32 * 34 /\ sz_bulletproof sz <= 32 * 290 /\ sz_bpplus sz <= 32 * 194 /\ sz_rangesig sz <= 32 * 6176 ->
+  (forall s t r, dec_tx sz s = (Ok t, r) -> kept_tx sz t <= 32 * (lenN s - lenN r)) /\
+  (forall s b r, dec_block sz s = (Ok b, r) -> kept_block sz b <= 32 * (lenN s - lenN r)).
+Print Assumptions C04_alloc_kept_total.
+
 Check C04_no_panic_varint : forall s r, dec_varint s <> (Panic, r) /\ dec_varint s <> (Err EFuel, r).
 Check C04_no_panic_u8 : forall s r, dec_u8 s <> (Panic, r) /\ dec_u8 s <> (Err EFuel, r).
 Check C04_no_panic_u16 : forall s r, dec_u16 s <> (Panic, r) /\ dec_u16 s <> (Err EFuel, r).
